@@ -1,6 +1,25 @@
-//! Special runner `tvh c20 ...` for C20 (things that do not fit replay/record). Fill in.
+//! Special runner `tvh c20 ...` for C20 (things that do not fit replay/record).
+use crate::ops;
+use serde_json::{json, Value};
+use std::io::{BufRead, Read, Write};
+
 pub fn main(a: &[String]) {
-    let _ = a;
-    eprintln!("not implemented");
-    std::process::exit(2);
+    match a.first().map(|s| s.as_str()).unwrap_or("") {
+        "probe" => probe(),
+        _ => { eprintln!("usage: tvh c20 probe"); std::process::exit(2); }
+    }
+}
+
+/// stdin: one {"op","args"} per line; executes them sequentially in this process and prints
+/// outcome, under-lock provider events and the poison flag after each.
+fn probe() {
+    temporal_rs::verif::tz::enable(true);
+    for l in std::io::stdin().lock().lines() {
+        let l = l.unwrap();
+        if l.trim().is_empty() { continue; }
+        let c: Value = serde_json::from_str(&l).expect("json");
+        let out = ops::exec(c["op"].as_str().unwrap(), &c["args"]);
+        let evs: Vec<Value> = temporal_rs::verif::tz::take().into_iter().map(|e| json!({"seq": e.seq, "zone": e.zone, "hit": e.hit})).collect();
+        println!("{}", json!({"op": c["op"], "args": c["args"], "out": out, "evs": evs, "poisoned": temporal_rs::verif::provider_lock_poisoned()}));
+    }
 }
